@@ -61,8 +61,10 @@ def check(ctx):
             ok = od == ("aggr", "core::option::Option", "None", ())
             what = "the bare-map conversion has no bytes to keep (None)"
         elif f.impl_trait in ("core::clone::Clone", "core::default::Default") and f.impl_self_adt == PH:
-            ok = bool(f.d.get("from_expansion"))       # compiler-derived: structural copy / all-empty value
-            what = "%s for ProtectedHeader is the derived one" % f.impl_trait.split("::")[-1]
+            # compiler-derived, or literally what the derive generates: a field-by-field copy / the all-empty value
+            imp = next((i for i in prog.impls if i.get("trait") == f.impl_trait and i.get("self_adt") == PH), None)
+            ok = bool(f.d.get("from_expansion")) or (imp is not None and S._structural_impl(prog, imp, prog.adts.get(PH) or {}))
+            what = "%s for ProtectedHeader is the derived one (or literally structural)" % f.impl_trait.split("::")[-1]
         elif f.name == "protected" and f.impl_self_ty and f.impl_self_ty.endswith("Builder") and f.impl_trait is None:
             n_setters += 1
             ok = od == ("aggr", "core::option::Option", "None", ()) and hd == ("param", 1)
